@@ -33,6 +33,17 @@ CHECKS = [
      "note": "pandas aggregates (sum, var, quantile, autocorr, corr) are assumed contracts; floats as reals; known finding C16-safe-divide",
      "not_covered": ["numerical accuracy of pandas' var/autocorr/corr", "that X_predict equals what a later predict(baseline) rebuilds (needs a fit)"],
      },
+    {"id": "C04", "level": "proof", "modules": ["contracts.C04_gate"], "bounded": [],
+     "technique": "deductive verification: exceptional postconditions of the real fit/predict/from_dict guards (pyvc symbolic execution, z3)",
+     "text": "For the daily, billing and hourly model the guards of fit() and predict() are verified in iff form over symbolic-length "
+             "disqualification lists, symbolic override flags and uninterpreted timezone strings: fit raises DataSufficiencyError exactly "
+             "when the data is disqualified and not overridden, appends the poor-fit disqualification exactly when the gate condition holds; "
+             "predict returns only when fitted, right data type, equal timezone and (not disqualified or overridden); from_dict restores "
+             "lists of the stored length.",
+     "note": "_fit/_adaptive_fit/_predict are opaque (assumed to return normally and to write only self.*); pydantic record construction "
+             "and settings classes are opaque; end-to-end behaviour of fit on data is not decided here",
+     "not_covered": ["that fit returns normally on every well-formed dataset (bounded part of C01/C10 exercises real fits)"],
+     },
 ]
 _NOT_BUILT = "machinery for this property is not built yet (see DESIGN.md §7 build order); not claimed"
 NOT_APPLICABLE = [{"property_id": f"C{n:02d}", "reason": _NOT_BUILT} for n in range(1, 21) if n != 15 and f"C{n:02d}" not in {c["id"] for c in CHECKS}] + [
